@@ -151,9 +151,38 @@ func runWiden(rep *Report, replay string) {
 			}
 		}
 	}
+	// the writer side: Buffer.PutAny with every Go integer type (what SetAny / SetMany hand it) against putAnyInt
+	nAny := 60
+	if rep.Tier == "thorough" {
+		nAny = 3000
+	}
+	pcs := putAnyCases(r, nAny)
+	if louts, err := runLean("codec", pcs); err != nil {
+		rep.Violations = append(rep.Violations, Violation{Property: rep.Property, Kind: "correspondence", Clause: "lean driver failed: " + err.Error()})
+	} else {
+		for i, pc := range pcs {
+			g := runGo(newCodecImpl, pc)
+			rep.Cases++
+			rep.DistinctNontrivial++
+			rep.count("putany-case")
+			d := firstDiff(g, louts[i])
+			msg := codecOracle(pc, g)
+			if (d >= 0 || msg != "") && len(rep.Violations) < 5 {
+				clause := msg
+				kind := "oracle"
+				if d >= 0 {
+					kind = "correspondence"
+					clause = fmt.Sprintf("Buffer.PutAny: model and implementation differ at line %d (%s)", d, clip(pc.Lines[d], 80))
+				}
+				v := Violation{Property: rep.Property, Kind: kind, Clause: clause, Script: pc.Lines, GoOut: g, LeanOut: louts[i]}
+				writeReplay(rep.Property, "widen", &v)
+				rep.Violations = append(rep.Violations, v)
+			}
+		}
+	}
 	rep.Lines = len(lines)
 	if len(rep.Samples) < 3 {
 		rep.Samples = append(rep.Samples, map[string]interface{}{"line": lines[len(edge)], "implementation": want[len(edge)]})
 	}
-	rep.Rule = "every edge value (0, ±1 around each sign and width boundary) at widths 2, 4 and 8 bytes, random values (a third forced next to a sign boundary) and eight widths the readers reject; each value is read from a commit buffer with Reader.Int and Reader.Uint, and — as the Go value of the narrower type — stored into an `int` and a `uint` column through Row.SetAny, Row.SetMany and txn.Any(col).Set in rotation and read back with Row.Int / Row.Uint; all four answers are compared with the model's readIntAny / readUintAny / widenInt; non-trivial = values of an accepted width"
+	rep.Rule = "every edge value (0, ±1 around each sign and width boundary) at widths 2, 4 and 8 bytes, random values (a third forced next to a sign boundary) and eight widths the readers reject; each value is read from a commit buffer with Reader.Int and Reader.Uint, and — as the Go value of the narrower type — stored into an `int` and a `uint` column through Row.SetAny, Row.SetMany and txn.Any(col).Set in rotation and read back with Row.Int / Row.Uint; all four answers are compared with the model's readIntAny / readUintAny / widenInt; plus Buffer.PutAny with every Go integer type (int8 … uint) at edge and random values against the model's putAnyInt, byte-exact; non-trivial = values of an accepted width"
 }
